@@ -1,5 +1,5 @@
 #!/usr/bin/env python3
-"""seedcheck.py <seed-dir> <property> <k> [check-properties...]
+"""seedcheck.py <seed-dir> <property> <k> [--as=N] [check-properties...]
 
 Confirms a seeded change produced by a sub-agent in a scratch worktree (suite passes with the change, the
 demonstration fails with it and passes without it), stores it under /verif/seeded/<property>-<k>/ and runs
@@ -15,7 +15,12 @@ def sh(cmd, cwd=None, timeout=600):
 
 def main():
     seed, prop, k = sys.argv[1], sys.argv[2], sys.argv[3]
-    checks = sys.argv[4:] or [prop]
+    rest = sys.argv[4:]
+    store_as = k
+    if rest and rest[0].startswith("--as="):
+        store_as = rest[0][5:]
+        rest = rest[1:]
+    checks = rest or [prop]
     diff = os.path.join(seed, f"change_{k}.diff")
     demo = os.path.join(seed, f"demo_{k}_test.go")
     note = os.path.join(seed, f"change_{k}.md")
@@ -68,7 +73,7 @@ def main():
             for v in viol[:4]:
                 print("    ", re.sub(r"replay=\S+ ", "", v)[:220])
         if confirmed:
-            dst = f"/verif/seeded/{prop}-{k}"
+            dst = f"/verif/seeded/{prop}-{store_as}"
             os.makedirs(dst, exist_ok=True)
             shutil.copy(diff, os.path.join(dst, "patch.diff"))
             shutil.copy(demo, os.path.join(dst, os.path.basename(demo)))
